@@ -119,7 +119,7 @@ func runC15(c *core.Ctx) {
 	// who may call
 	cg := c.P.CG()
 	if f := c.Fn(pkStorage, "CacheDB.Commit"); f != nil {
-		callers := cg.Callers(f)
+		callers := c.P.EffectiveCallers(f, func(y *ssa.Function) bool { return y == hit })
 		names := []string{}
 		for _, x := range callers {
 			names = append(names, ir.FuncName(x))
@@ -131,7 +131,8 @@ func runC15(c *core.Ctx) {
 				continue
 			}
 			bad := []string{}
-			for _, x := range cg.Callers(of) {
+			// private helpers (a closure, a method value, an extracted per-entry method) are transparent
+			for _, x := range c.P.EffectiveCallers(of, func(y *ssa.Function) bool { return y == f }) {
 				root := x
 				for root.Parent() != nil {
 					root = root.Parent()
